@@ -318,12 +318,96 @@ def auto_discharge(ctx, b, h):
                     return poly(f['end']) - poly(f['start'])
             return None
         NEG = {'Eq': 'Ne', 'Ne': 'Eq', 'Lt': 'Ge', 'Ge': 'Lt', 'Gt': 'Le', 'Le': 'Gt'}
-        def canon(op):
-            # '!Eq' -> 'Ne' is exact for integers; for floats the negated ordered forms stay as they are
+        INTS = ('i8', 'i16', 'i32', 'i64', 'isize', 'u8', 'u16', 'u32', 'u64', 'usize')
+        def is_int(t):
+            t = strip_all(t)
+            if t[0] == 'const':
+                return t[1] in INTS
+            if t[0] in ('phi', 'mem') and isinstance(t[1], int):
+                return b.local_ty(t[1]) in INTS
+            if t[0] == 'cast':
+                return t[2] in INTS
+            if t[0] == 'param' and isinstance(t[1], int):
+                return b.local_ty(t[1]) in INTS
+            return False
+        def canon(op, A=None, B=None):
+            # '!Eq' -> 'Ne' always; the negated ordered forms only for integers (a NaN makes both `<` and `>=` false)
             if op.startswith('!') and op[1:] in ('Eq', 'Ne'):
                 return NEG[op[1:]]
+            if op.startswith('!') and op[1:] in NEG and ((A is not None and is_int(A)) or (B is not None and is_int(B))):
+                return NEG[op[1:]]
             return op
-        fs = [(canon(op), A, B, si) for op, A, B, si in shared.facts_at(ctx, b, bi) if B is not None]
+        fs = [(canon(op, A, B), A, B, si) for op, A, B, si in shared.facts_at(ctx, b, bi) if B is not None]
+        # `assert!(p && q)`: the failure block is entered from one test per conjunct; it is unreachable when each of those
+        # edges contradicts what is already known at its test
+        def edge_facts(P, into):
+            t = b.blocks[P]['t']
+            if t['k'] != 'switch' or t.get('ty') != 'bool':
+                return None
+            false_t = [tt for v, tt in t['targets'] if v == '0']
+            if not false_t or false_t[0] == t['otherwise']:
+                return None
+            truth = t['otherwise'] == into
+            if not truth and false_t[0] != into:
+                return None
+            c = an.term_at(P, len(b.blocks[P]['st']), t['o'])
+            neg = not truth
+            while c[0] == 'un' and c[1] == 'Not':
+                c, neg = c[2], not neg
+            if c[0] == 'bin' and c[1] in NEG:
+                op = c[1]
+                if neg:
+                    op = NEG[op] if op in ('Eq', 'Ne') else '!' + op
+                return [(op, c[2], c[3])]
+            return None
+        CONTRA = {'Lt': ('!Lt', 'Ge'), '!Lt': ('Lt',), 'Ge': ('!Ge', 'Lt'), '!Ge': ('Ge',), 'Gt': ('!Gt', 'Le'), '!Gt': ('Gt',),
+                  'Le': ('!Le', 'Gt'), '!Le': ('Le',), 'Eq': ('Ne', '!Eq', 'Lt', 'Gt'), 'Ne': ('Eq', '!Ne'), '!Eq': ('Eq',), '!Ne': ('Ne',)}
+        SWP = {'Lt': 'Gt', 'Gt': 'Lt', 'Le': 'Ge', 'Ge': 'Le', 'Eq': 'Eq', 'Ne': 'Ne'}
+        def contradicts(op, A, B, known):
+            """both cannot hold: `op(A, B)` and a known fact about the same two terms"""
+            mine = [(op, nosite(A), nosite(B)), (('!' if op.startswith('!') else '') + SWP[op.lstrip('!')], nosite(B), nosite(A))]
+            for op2, A2, B2, sj in known:
+                for o1, a1, b1 in mine:
+                    if a1 == nosite(A2) and b1 == nosite(B2) and op2 in CONTRA.get(o1, ()):
+                        return True
+            return False
+        preds = [P for P in cfg.pred[bi] if P in cfg.reach]
+        # look through blocks that only jump
+        def real_preds(x, depth=0):
+            out = []
+            for P in cfg.pred[x]:
+                if P not in cfg.reach:
+                    continue
+                if b.blocks[P]['t']['k'] == 'goto' and not b.blocks[P]['st'] and depth < 3:
+                    out += real_preds(P, depth + 1)
+                else:
+                    out.append((P, x))
+            return out
+        # the same across paths: the block (or every block that jumps into it) knows a fact which every path to it has
+        # contradicted on some earlier edge (the test was made on each route, not at one dominating point)
+        def refuted_by_edges(x):
+            for op, A, B, si in [(canon(o, A, B), A, B, si) for o, A, B, si in shared.facts_at(ctx, b, x) if B is not None]:
+                nA, nB = nosite(A), nosite(B)
+                def contra(op2, A2, B2):
+                    return B2 is not None and nosite(A2) == nA and nosite(B2) == nB and canon(op2, A2, B2) in CONTRA.get(op, ())
+                es = [e for e in bool_edges(ctx, b, contra) if e[0] != si]
+                if es and cut_by_edges(cfg, si, es):
+                    return True
+            return False
+        ps = [P for P in cfg.pred[bi] if P in cfg.reach]
+        if refuted_by_edges(bi) or (ps and all(b.blocks[P]['t']['k'] == 'goto' and refuted_by_edges(P) for P in ps)):
+            return 'the assertion fails only if a comparison holds whose opposite was established on every path to it'
+        rp = real_preds(bi)
+        if rp and all(b.blocks[P]['t']['k'] == 'switch' for P, into in rp):
+            allref = True
+            for P, into in rp:
+                ef = edge_facts(P, into)
+                known = [(canon(o, A, B), A, B, sj) for o, A, B, sj in shared.facts_at(ctx, b, P) if B is not None]
+                if not ef or not all(contradicts(o, A, B, known) for o, A, B in ef):
+                    allref = False
+                    break
+            if allref:
+                return 'every way into the assertion failure contradicts a test that dominates it'
         for op, A, B, si in fs:
             cb = const_val(strip_all(B))
             if op in ('Gt', '!Le') and isinstance(cb, int) and ubound(A) is not None and ubound(A) <= cb:
